@@ -132,9 +132,13 @@ static int guide_on = 0, guide_rr = 0;
 static int tag_of[VS_MAX];
 static char guide_why[200];
 static unsigned shared_points[16], n_shared = 0;
+static struct vs_guide_roles roles;
+static int guide_eager = -1;
+static unsigned guide_spin = 0;
 
-void vs_load_guide(const char *path, const unsigned *shared, unsigned n)
+void vs_load_guide(const char *path, const unsigned *shared, unsigned n, const struct vs_guide_roles *r)
 {
+	roles = *r;
 	FILE *f = fopen(path, "r");
 	if(!f)
 		return;
@@ -178,6 +182,38 @@ int vs_guide_status(unsigned long *pos, unsigned long *len, const char **why)
 	if(guide_why[0])
 		return 3;
 	return guide_pos >= guide_len ? 1 : 2;
+}
+/* the next shared access the behaviour expects from the thread with this tag (0: none) */
+static unsigned guide_next_kind(int tag)
+{
+	for(unsigned long i = guide_pos; i < guide_len; ++i)
+		if(guide[i].tag == tag)
+			return guide[i].point;
+	return 0;
+}
+/* A thread that has just performed its shared access keeps running through its thread-private steps (the specification
+ * takes them at once: they commute with everything) until the observation point that directly precedes its NEXT shared
+ * access - there it is parked until the behaviour says so.  In particular the exchange of an EMPTY inbox followed by a pop
+ * from the private heap belongs to the private steps (next access: the flag word of the popped message), while a thread whose
+ * next access is an effective exchange or a network receive is parked at the boundary of its main-loop pass. */
+static int guide_stop_here(int tag, unsigned point, unsigned long site)
+{
+	unsigned nk = guide_next_kind(tag);
+	if(point == 0 && (site == 2 || site == 3))
+		return 1; /* barrier */
+	if(point == roles.p_extract && site == 0)
+		return 1; /* nothing to do */
+	if(nk == 0)
+		return 1;
+	if(nk == roles.p_drain || nk == roles.p_netrecv)
+		return point == 0 && (site == 1 || site == 21); /* end of a main-loop pass / network probe: the exchange comes next */
+	if(nk == roles.p_flag)
+		return point == roles.p_extract && site != 0;
+	if(nk == roles.p_push)
+		return point == roles.p_precas;
+	/* a fetch_add of the rollback loop or a network send: directly after one of these points */
+	return point == roles.p_rb_begin || point == roles.p_anti_local || point == roles.p_undo || point == roles.p_anti_remote ||
+	    point == roles.p_push || point == roles.p_alloc;
 }
 static void guide_fail(const char *what, int me, unsigned point)
 {
@@ -317,6 +353,7 @@ void vs_yield(unsigned point, unsigned long site)
 			if(guide_pos < guide_len && guide[guide_pos].tag == tag_of[me] && guide[guide_pos].point == point) {
 				++guide_pos;
 				guide_idle = 0;
+				guide_eager = me;
 			} else
 				guide_fail(guide_pos < guide_len ? "shared access out of turn" : "shared access after the end of the behaviour", me, point);
 		}
@@ -329,15 +366,27 @@ void vs_yield(unsigned point, unsigned long site)
 			if(tag_of[i] == guide[guide_pos].tag && thr[i].state != 0)
 				target = i;
 		int waiting = 0;
+		if(target != me && guide_eager == me) {
+			if(!guide_stop_here(tag_of[me], point, site))
+				return;
+			guide_eager = -1;
+		}
 		if(target == me) {
+			guide_eager = -1;
 			if(point == 0 && site == 1 && ++guide_idle > 12)
 				guide_fail("the expected shared access is not performed (thread idle)", me, point);
 			waiting = point == 0 && (site == 2 || site == 3);
 			if(!waiting || !guide_on)
 				return;
+			/* a thread resumed inside a barrier loop re-tests the barrier before it is considered to be waiting */
+			if(guide_spin++ < 1)
+				return;
+			guide_spin = 0;
 		}
 		if(guide_on && target >= 0 && target != me && thr[target].state == 1) {
+			guide_spin = 0;
 			hand_over(me, target);
+			guide_spin = 0;
 			return;
 		}
 		if(guide_on) {
@@ -353,6 +402,7 @@ void vs_yield(unsigned point, unsigned long site)
 				if(c != me && c != target && thr[c].state == 1 && (!waiting || thr[c].group == thr[me].group)) {
 					guide_rr = c;
 					hand_over(me, c);
+					guide_spin = 0;
 					return;
 				}
 			}
